@@ -15,7 +15,14 @@ import (
 	"bufio"
 	"bytes"
 	"context"
+	"crypto/ecdsa"
+	"crypto/elliptic"
+	crand "crypto/rand"
+	"crypto/tls"
+	"crypto/x509"
+	"crypto/x509/pkix"
 	"errors"
+	"math/big"
 	"fmt"
 	"math/rand"
 	"net"
@@ -694,6 +701,154 @@ func serveDTLS(seed int64, good, bad, msgs int) string {
 	return b.String()
 }
 
+// ---------------------------------------------------------------- TLS
+
+// selfSigned makes a throw-away certificate for 127.0.0.1.
+func selfSigned() (tls.Certificate, *x509.CertPool, error) {
+	key, err := ecdsa.GenerateKey(elliptic.P256(), crand.Reader)
+	if err != nil {
+		return tls.Certificate{}, nil, err
+	}
+	tmpl := &x509.Certificate{SerialNumber: big.NewInt(1), Subject: pkix.Name{CommonName: "c10"},
+		NotBefore: time.Now().Add(-time.Hour), NotAfter: time.Now().Add(time.Hour),
+		KeyUsage: x509.KeyUsageDigitalSignature | x509.KeyUsageCertSign, ExtKeyUsage: []x509.ExtKeyUsage{x509.ExtKeyUsageServerAuth},
+		IsCA: true, BasicConstraintsValid: true, IPAddresses: []net.IP{net.IPv4(127, 0, 0, 1)}}
+	der, err := x509.CreateCertificate(crand.Reader, tmpl, tmpl, &key.PublicKey, key)
+	if err != nil {
+		return tls.Certificate{}, nil, err
+	}
+	leaf, _ := x509.ParseCertificate(der)
+	pool := x509.NewCertPool()
+	pool.AddCert(leaf)
+	return tls.Certificate{Certificate: [][]byte{der}, PrivateKey: key, Leaf: leaf}, pool, nil
+}
+
+// serveTLS: a TLS stream server; the adversaries connect on TCP and never start (or never finish) the TLS handshake, or
+// send garbage instead of a ClientHello; the well-behaved clients must all be served meanwhile.
+func serveTLS(seed int64, good, bad, msgs int) string {
+	rng := rand.New(rand.NewSource(seed))
+	cert, roots, err := selfSigned()
+	if err != nil {
+		return "rig-error cert"
+	}
+	l, err := coapNet.NewTLSListener("tcp4", "127.0.0.1:0", &tls.Config{Certificates: []tls.Certificate{cert}, MinVersion: tls.VersionTLS12})
+	if err != nil {
+		return "rig-error listen"
+	}
+	defer l.Close()
+	var panics atomic.Int64
+	r := mux.NewRouter()
+	_ = r.Handle("/echo", mux.HandlerFunc(func(w mux.ResponseWriter, req *mux.Message) {
+		body, _ := req.ReadBody()
+		_ = w.SetResponse(codes.Content, message.TextPlain, bytes.NewReader(body))
+	}))
+	s := tcp.NewServer(options.WithMux(r), options.WithErrors(func(error) {}))
+	served := make(chan error, 1)
+	go func() {
+		defer func() {
+			if rec := recover(); rec != nil {
+				panics.Add(1)
+				served <- fmt.Errorf("panic %v", rec)
+			}
+		}()
+		served <- s.Serve(l)
+	}()
+	addr := l.Addr().String()
+	var stalled []net.Conn
+	for b := 0; b < bad; b++ {
+		c, err := net.Dial("tcp4", addr)
+		if err != nil {
+			continue
+		}
+		stalled = append(stalled, c)
+		switch rng.Intn(3) {
+		case 0: // connects and says nothing
+		case 1: // the first bytes of a ClientHello record, then silence
+			_, _ = c.Write([]byte{0x16, 0x03, 0x01, 0x02, 0x00, 0x01, 0x00})
+		case 2: // not TLS at all
+			g := make([]byte, 1+rng.Intn(40))
+			rng.Read(g)
+			_, _ = c.Write(g)
+		}
+	}
+	defer func() {
+		for _, c := range stalled {
+			_ = c.Close()
+		}
+	}()
+	time.Sleep(100 * time.Millisecond)
+	clientCfg := &tls.Config{RootCAs: roots, ServerName: "127.0.0.1", MinVersion: tls.VersionTLS12}
+	results := make([]goodResult, good)
+	var gwg sync.WaitGroup
+	for g := 0; g < good; g++ {
+		gwg.Add(1)
+		go func(g int) {
+			defer gwg.Done()
+			res := goodResult{order: true}
+			defer func() { results[g] = res }()
+			dctx, dcancel := context.WithTimeout(context.Background(), 4*time.Second)
+			defer dcancel()
+			cc, err := tcp.Dial(addr, options.WithTLS(clientCfg), options.WithContext(dctx))
+			if err != nil {
+				return
+			}
+			defer func() {
+				_ = cc.Close()
+				<-cc.Done()
+			}()
+			for i := 0; i < msgs; i++ {
+				ctx, cancel := context.WithTimeout(context.Background(), 3*time.Second)
+				want := fmt.Sprintf("c%d-%d", g, i)
+				resp, err := cc.Post(ctx, "/echo", message.TextPlain, strings.NewReader(want))
+				cancel()
+				if err != nil {
+					return
+				}
+				body, _ := resp.ReadBody()
+				if resp.Code() != codes.Content || string(body) != want {
+					res.wrong++
+				}
+				res.got++
+			}
+		}(g)
+	}
+	gwg.Wait()
+	alive := 0
+	{
+		dctx, dcancel := context.WithTimeout(context.Background(), 4*time.Second)
+		if cc, err := tcp.Dial(addr, options.WithTLS(clientCfg), options.WithContext(dctx)); err == nil {
+			ctx, cancel := context.WithTimeout(context.Background(), 3*time.Second)
+			if resp, err := cc.Post(ctx, "/echo", message.TextPlain, strings.NewReader("probe")); err == nil && resp.Code() == codes.Content {
+				alive = 1
+			}
+			cancel()
+			_ = cc.Close()
+			<-cc.Done()
+		}
+		dcancel()
+	}
+	stillServing := 1
+	select {
+	case <-served:
+		stillServing = 0
+	default:
+	}
+	for _, c := range stalled {
+		_ = c.Close()
+	}
+	s.Stop()
+	select {
+	case <-served:
+	case <-time.After(5 * time.Second):
+	}
+	var b strings.Builder
+	for g, r := range results {
+		fmt.Fprintf(&b, "g%d got %d/%d wrong %d ; ", g, r.got, msgs, r.wrong)
+	}
+	fmt.Fprintf(&b, "alive %d serving %d panics %d", alive, stillServing, panics.Load())
+	return b.String()
+}
+
 // ---------------------------------------------------------------- discovery
 
 func discover(responders int, dup bool) string {
@@ -859,6 +1014,8 @@ func TestC10(t *testing.T) {
 				fmt.Fprintln(w, serveUDPBacklog(good, bad)) // serve udpbacklog <seed> <slowMs> <burst> <unused>
 			} else if f[1] == "udp" {
 				fmt.Fprintln(w, serveUDP(seed, good, bad, msgs))
+			} else if f[1] == "tls" {
+				fmt.Fprintln(w, serveTLS(seed, good, bad, msgs))
 			} else if f[1] == "dtls" {
 				fmt.Fprintln(w, serveDTLS(seed, good, bad, msgs))
 			} else {
